@@ -444,6 +444,105 @@ theorem dec_readFileRecord_req_conforms (rs : List FileRec) (h : ∀ r ∈ rs, W
   simp only [List.drop_one, List.tail_cons, Impl.idx, List.singleton_append, List.getElem?_cons_zero, hn, bind, Except.bind, pure, Except.pure]
   rw [show (7 * rs.length :: List.flatMap fileSubReq rs) = [7 * rs.length] ++ List.flatMap fileSubReq rs from rfl, this]
 
+/-- what the decoder makes of a write sub-request: the fields and the data; `response_length` = data length + 1 -/
+def writeRecDecoded (r : FileRec) : FileRec :=
+  { referenceType := 6, fileNumber := r.fileNumber, recordNumber := r.recordNumber, recordData := r.recordData,
+    recordLength := r.recordLength, responseLength := r.recordData.length + 1 }
+
+def writeSizes (rs : List FileRec) : Nat := PduSpec.sum (rs.map (fun r => 7 + r.recordData.length))
+
+theorem fileSubWrite_length (r : FileRec) : (fileSubWrite r).length = 7 + r.recordData.length := by
+  simp [fileSubWrite, fileSubReq, u16]; omega
+
+theorem writeSizes_cons (r : FileRec) (rs : List FileRec) :
+    writeSizes (r :: rs) = 7 + r.recordData.length + writeSizes rs := by
+  simp [writeSizes, PduSpec.sum]
+
+theorem decRecsWrite_spec (rs : List FileRec) (h : ∀ r ∈ rs, WFRecWrite r) (pre : Bytes) (fuel B : Nat)
+    (hf : rs.length ≤ fuel) (hB1 : B ≤ pre.length + writeSizes rs) (hB2 : pre.length + writeSizes rs < B + 7) :
+    Impl.decRecsWrite (pre ++ rs.flatMap fileSubWrite) B pre.length fuel = .ok (rs.map writeRecDecoded) := by
+  induction rs generalizing pre fuel with
+  | nil =>
+    cases fuel with
+    | zero => rfl
+    | succ f =>
+      have : ¬ pre.length < B := by simp [writeSizes, PduSpec.sum] at hB1; omega
+      simp [Impl.decRecsWrite, this]
+  | cons r rs ih =>
+    obtain ⟨hw, hlen⟩ := h r (by simp)
+    cases fuel with
+    | zero => simp at hf
+    | succ f =>
+      have hf' : rs.length ≤ f := by simpa using hf
+      have hlt : pre.length < B := by rw [writeSizes_cons] at hB2; omega
+      have hsub := fileSubReq_length r
+      have hd : pre ++ (r :: rs).flatMap fileSubWrite = pre ++ (fileSubReq r ++ (r.recordData ++ rs.flatMap fileSubWrite)) := by
+        simp [List.flatMap_cons, fileSubWrite, List.append_assoc]
+      have hsl : Impl.slice (pre ++ (r :: rs).flatMap fileSubWrite) pre.length (pre.length + 7) = fileSubReq r := by
+        rw [hd]
+        simp only [Impl.slice, List.drop_left']
+        rw [show pre.length + 7 - pre.length = 7 by omega]
+        rw [List.take_append_of_le_length (by omega), List.take_of_length_le (by omega)]
+      have hdata : Impl.slice (pre ++ (r :: rs).flatMap fileSubWrite)
+          (pre.length + r.recordLength * 2 + 7 - r.recordLength * 2) (pre.length + r.recordLength * 2 + 7) = r.recordData := by
+        rw [hd, ← List.append_assoc]
+        have hl : (pre ++ fileSubReq r).length = pre.length + r.recordLength * 2 + 7 - r.recordLength * 2 := by
+          simp [hsub]; omega
+        simp only [Impl.slice]
+        rw [← hl, List.drop_left' rfl]
+        have hk : pre.length + r.recordLength * 2 + 7 - (pre ++ fileSubReq r).length = r.recordData.length := by
+          simp [hsub]; omega
+        rw [hk, List.take_left' rfl]
+      have hpl : (pre ++ fileSubWrite r).length = pre.length + r.recordLength * 2 + 7 := by
+        simp [fileSubWrite_length]; omega
+      have hbc : (pre ++ fileSubWrite r).length + writeSizes rs = pre.length + writeSizes (r :: rs) := by
+        rw [writeSizes_cons, hpl]; omega
+      have hih := ih (fun x hx => h x (by simp [hx])) (pre ++ fileSubWrite r) f hf' (by rw [hbc]; exact hB1) (by rw [hbc]; exact hB2)
+      have hd2 : pre ++ (r :: rs).flatMap fileSubWrite = (pre ++ fileSubWrite r) ++ rs.flatMap fileSubWrite := by
+        simp [List.flatMap_cons, List.append_assoc]
+      rw [← hd2, hpl] at hih
+      rw [Impl.decRecsWrite]
+      simp only [hlt, if_true, hsl, unpack_sub r hw, bind, Except.bind, hdata, hih, pure, Except.pure, List.map_cons,
+        writeRecDecoded]
+
+theorem flatMap_write_length (rs : List FileRec) : (rs.flatMap fileSubWrite).length = writeSizes rs := by
+  induction rs with
+  | nil => rfl
+  | cons r rs ih => rw [List.flatMap_cons, List.length_append, ih, fileSubWrite_length, writeSizes_cons]
+
+theorem length_le_writeSizes (rs : List FileRec) : rs.length ≤ writeSizes rs := by
+  induction rs with
+  | nil => simp [writeSizes, PduSpec.sum]
+  | cons r rs ih => rw [writeSizes_cons]; simp only [List.length_cons]; omega
+
+/-- every conformant Write File Record request PDU decodes to its sub-requests with their data, in order -/
+theorem dec_writeFileRecord_req_conforms (rs : List FileRec) (h : ∀ r ∈ rs, WFRecWrite r) :
+    Impl.decReq (21 :: PduSpec.encReq (.writeFileRecord rs)) = .ok (.writeFileRecord (rs.map writeRecDecoded)) := by
+  have hlen : ([writeSizes rs] ++ rs.flatMap fileSubWrite).length = 1 + writeSizes rs := by
+    rw [List.length_append, flatMap_write_length]; rfl
+  have := decRecsWrite_spec rs h [writeSizes rs] (1 + writeSizes rs) (writeSizes rs)
+    (by have := length_le_writeSizes rs; omega) (by simp) (by simp; omega)
+  simp only [List.length_singleton] at this
+  show Impl.decReq (21 :: ([writeSizes rs] ++ rs.flatMap fileSubWrite)) = _
+  unfold Impl.decReq
+  simp only [List.drop_one, List.tail_cons, Impl.idx, List.singleton_append, List.getElem?_cons_zero, bind, Except.bind, pure, Except.pure]
+  rw [show (writeSizes rs :: List.flatMap fileSubWrite rs) = [writeSizes rs] ++ List.flatMap fileSubWrite rs from rfl, hlen, this]
+
+/-- … and so does the Write File Record response (the same layout) through the client-side decoder -/
+theorem dec_writeFileRecord_resp_conforms (rs : List FileRec) (h : ∀ r ∈ rs, WFRecWrite r) :
+    Impl.decResp (21 :: PduSpec.encResp (.writeFileRecord rs)) = some (.writeFileRecord (rs.map writeRecDecoded)) := by
+  have hlen : ([writeSizes rs] ++ rs.flatMap fileSubWrite).length = 1 + writeSizes rs := by
+    rw [List.length_append, flatMap_write_length]; rfl
+  have := decRecsWrite_spec rs h [writeSizes rs] (1 + writeSizes rs) (writeSizes rs)
+    (by have := length_le_writeSizes rs; omega) (by simp) (by simp; omega)
+  simp only [List.length_singleton] at this
+  show Impl.decResp (21 :: ([writeSizes rs] ++ rs.flatMap fileSubWrite)) = _
+  unfold Impl.decResp
+  simp only [show ¬ (21 > 0x80) by decide, if_false]
+  unfold Impl.decRespBody
+  simp only [Impl.idx, List.singleton_append, List.getElem?_cons_zero, bind, Except.bind, pure, Except.pure]
+  rw [show (writeSizes rs :: List.flatMap fileSubWrite rs) = [writeSizes rs] ++ List.flatMap fileSubWrite rs from rfl, hlen, this]
+
 /-- Read File Record request: byte count 7·n, then per sub-request `06 file record length` -/
 theorem enc_readFileRecord_req_conforms (rs : List FileRec) (h : ∀ r ∈ rs, WFRec r) (hl : 7 * rs.length < 256) :
     Impl.encReq (.readFileRecord rs) = .ok (PduSpec.encReq (.readFileRecord rs)) := by
